@@ -12,7 +12,9 @@ EXC = {'ValueError': ValueError, 'TypeError': TypeError, 'KeyError': KeyError, '
        'StopIteration': StopIteration, 'AssertionError': AssertionError, 'OSError': OSError}
 
 
-class FNode:
+class FBase:
+    """instrumented node without a printer of its own"""
+
     def __init__(self, tag, children):
         self.tag = tag
         self.children = children
@@ -23,6 +25,10 @@ class FNode:
 
     def __repr__(self):
         return '<%s %s>' % (type(self).__name__, self.tag)
+
+
+class FNode(FBase):
+    """printer registered for the class"""
 
 
 class FNode2(FNode):
@@ -103,6 +109,15 @@ class ObjPrinter:
 
 
 register_pretty(FObjNode)(ObjPrinter())
+
+
+class FPredNode(FBase):
+    """its printer is registered through a predicate (it takes no trailing comment)"""
+
+
+@register_pretty(predicate=lambda v: type(v) is FPredNode)
+def pretty_fpred(value, ctx):
+    return _doc(value, ctx, None)
 
 
 class FLazyBase(FNode):
